@@ -991,6 +991,10 @@ def Config_Validate (c : Go.Config) : Go.Err :=
                                 | .brk () =>
                                   (none : Go.Err)
 
+/-- SessionManager.getSessionOptions (session.go) -/
+def SessionManager_getSessionOptions (sm : Go.SessMgr) (isSecure : Bool) : Go.SessOptions :=
+  ({ HttpOnly := true, Secure := (isSecure || sm.forceHTTPS), SameSite := Go.SameSite.lax, MaxAge := (Go.int64 (Go.durSeconds absoluteSessionTimeout)), Path := ['/'], Domain := ([] : Go.Str) } : Go.SessOptions)
+
 /-- SessionData.expireAccessTokenChunks (session.go) -/
 def SessionData_expireAccessTokenChunks (fuel : Nat) (sd : Go.SessData) (w : Bool) : Option (Go.SessData) :=
   let i := (0 : Int)
